@@ -1,5 +1,6 @@
 import Driver.Common
 import Logrange.Model.FieldsKV
+import Logrange.Model.TagsW
 /-! Model driver for C08 (tag lines and field lists). Stateless; one request per line (`safe`/`qsafe` bits are the
 class predicates of the open findings, evaluated with the PINNED quoting triggers):
 
@@ -7,7 +8,7 @@ class predicates of the open findings, evaluated with the PINNED quoting trigger
 * `rcb <s>` / `split <s>` → `ok <hex>*` | `err`; `trim <s>` → `<hex>`
 * `parse <text>` → `ok <k> <v> …` (sorted by key) | `err`          (`tag.Parse`, the map)
 * `line <k> <v> …` → `<hex>`                                        (`tagMap.line()` over this iteration order)
-* `rt <text>` → `<rej|same|err|diff> safe=<0|1> line=<hex> line2=<hex>` (line2 = line of the re-read set)       (`Parse`, `Line`, `Parse` again)
+* `rt <text>` → `<rej|same|err|diff> safe=<0|1> line=<hex> line2=<hex> safew=<0|1>` (safew = the position-aware class `Tags.safeW`, regenerated trigger) (line2 = line of the re-read set)       (`Parse`, `Line`, `Parse` again)
 * `maprt <k> <v> …` → `<same|err|diff> safe=<0|1> line=<hex>`       (`MapToSet(m).Line()` parsed back)
 * `fromkv <text>` → `ok <hex>` | `err`; `askv <fields>` → `ok <hex>` | `panic`; `check <fields>` → `0|1`
 * `frt <text>` → `<rej|same|err|diff|panic> wf=<0|1> safe=<0|1> qsafe=<0|1> long=<0|1> kv=<hex>`; `fsafe <fields>` → `0|1`
@@ -35,7 +36,7 @@ def rtOf (m : Map) (rejOnNone : Bool := false) : String :=
   let (oc, l2) := match parse l with
     | none => ("err", [])
     | some m2 => (if m2 = m then "same" else "diff", line m2)
-  s!"{oc} safe={b01 (safePinned m)} line={hex l} line2={hex l2}"
+  s!"{oc} safe={b01 (safePinned m)} line={hex l} line2={hex l2} safew={b01 (safeW m)}"
 
 def step (_ : Unit) (toks : List String) : Unit × String :=
   ((), match toks with
